@@ -31,6 +31,49 @@ func collectRefs(n *ON, acc *[]string) {
 	}
 }
 
+// mixedRefOnlyInPathParameters: every $ref to the component "mixed" sits in the schema of a parameter with in: path.
+func mixedRefOnlyInPathParameters(oas *ON) bool {
+	const ref = "#/components/schemas/mixed"
+	count := func(n *ON) int {
+		var rr []string
+		collectRefs(n, &rr)
+		k := 0
+		for _, r := range rr {
+			if r == ref {
+				k++
+			}
+		}
+		return k
+	}
+	inParams := 0
+	var params func(n *ON)
+	params = func(n *ON) {
+		if n == nil {
+			return
+		}
+		switch n.Kind {
+		case 'o':
+			for i, k := range n.Keys {
+				if k == "parameters" && n.Vals[i].IsArr() {
+					for _, p := range n.Vals[i].Vals {
+						if p.IsObj() && p.S("in") == "path" {
+							inParams += count(p.Get("schema"))
+						}
+					}
+					continue
+				}
+				params(n.Vals[i])
+			}
+		case 'a':
+			for _, v := range n.Vals {
+				params(v)
+			}
+		}
+	}
+	params(oas.Get("paths"))
+	return inParams > 0 && inParams == count(oas)
+}
+
 // OASCheck validates the OpenAPI document against the catalog it was exported from.
 func OASCheck(oas, cat *ON) *Violation {
 	if !oas.IsObj() {
@@ -73,6 +116,11 @@ func OASCheck(oas, cat *ON) *Violation {
 	for _, r := range refs {
 		const pfx = "#/components/schemas/"
 		if !strings.HasPrefix(r, pfx) || comps.Get(r[len(pfx):]) == nil {
+			if r == pfx+"mixed" && mixedRefOnlyInPathParameters(oas) {
+				// a path parameter whose schema is the pseudo type "mixed": the Path body took the property from a
+				// compiled user type and the `or` rule was lost on the way (open finding J5)
+				return V("c17:dangling-ref:mixed-path-parameter", "$ref %q (a path parameter's schema) does not resolve into components.schemas", r)
+			}
 			return V("c17:dangling-ref", "$ref %q does not resolve into components.schemas", r)
 		}
 	}
